@@ -243,13 +243,17 @@ def activeJson : Option Bool → Dict
   | none => []
   | some b => [("active", .bool b)]
 
+def untilDict : Option DateTime → Dict
+  | none => []
+  | some d => [("until", isoJson { d with second := 0 })]
+
 /-- `parser_1f41` on `<idx><active><mode>FFFFFF[<until>]` -/
 theorem p1F41_of_parts (f : Frame) (i : List Char) (hi : i.length = 2) (act : Option Bool) (k : String × String)
     (hk : k ∈ Gen.zonModeMap) (untl : Option DateTime) (hv : ∀ d, untl = some d → d.valid = true)
     (hu : untl.isSome = decide (k.1 = Gen.zonModeTEMPORARY))
     (hp : f.payload = i ++ activeHex act ++ k.1.toList ++ "FFFFFF".toList ++ untilHex untl) :
     p1F41 f = .ok (.dict ([("mode", Json.str k.2.toList)] ++ activeJson act ++
-      (match untl with | none => [] | some d => [("until", isoJson { d with second := 0 })]))) := by
+      untilDict untl)) := by
   have hk2 : k.1.toList.length = 2 := by
     simp only [Gen.zonModeMap, List.mem_cons, List.not_mem_nil, or_false] at hk
     rcases hk with h | h | h | h | h <;> subst h <;> rfl
@@ -284,8 +288,8 @@ theorem p1F41_of_parts (f : Frame) (i : List Char) (hi : i.length = 2) (act : Op
       else Except.ok r0) = .ok (r0 ++ activeJson act) := by
     intro r0
     cases act with
-    | none => simp [activeHex, activeJson, s]
-    | some b => cases b <;> simp [activeHex, activeJson, s]
+    | none => simp [activeHex, activeJson, s, untilDict]
+    | some b => cases b <;> simp [activeHex, activeJson, s, untilDict]
   unfold p1F41
   simp only [e_m, e_f, e_act, hin, hzm, pyAssert, bind, Except.bind, pure, Except.pure, decide_true, if_true, throw, throwThe,
     MonadExceptOf.throw]
@@ -306,8 +310,8 @@ theorem p1F41_of_parts (f : Frame) (i : List Char) (hi : i.length = 2) (act : Op
     simp only [hkt, hbl, decide_true, Bool.true_or, Bool.or_true, if_true, ne_eq, not_true_eq_false, decide_false, Bool.false_or, e_u]
     rw [jDtm_roundtrip_nosecs d (hv d rfl)]
     cases act with
-    | none => simp [activeHex, activeJson, s]
-    | some b => cases b <;> simp [activeHex, activeJson, s]
+    | none => simp [activeHex, activeJson, s, untilDict]
+    | some b => cases b <;> simp [activeHex, activeJson, s, untilDict]
   · have hnone : untl = none := by
       cases untl with
       | none => rfl
@@ -321,8 +325,8 @@ theorem p1F41_of_parts (f : Frame) (i : List Char) (hi : i.length = 2) (act : Op
       rcases hk with h | h | h | h | h <;> subst h <;> first | decide | exact absurd rfl ht
     simp only [hkt, hbl, decide_true, decide_false, Bool.false_or, Bool.or_true, Bool.true_or, if_true, ne_eq, not_false_eq_true, if_false]
     cases act with
-    | none => simp [activeHex, activeJson, s]
-    | some b => cases b <;> simp [activeHex, activeJson, s]
+    | none => simp [activeHex, activeJson, s, untilDict]
+    | some b => cases b <;> simp [activeHex, activeJson, s, untilDict]
 
 /-! ### mode / until / duration: what is refused -/
 
@@ -402,5 +406,104 @@ theorem normaliseMode_refuses (mode : ModeArg) (hasTarget : Bool) (untl : Option
     cases hasTarget with
     | true => rfl
     | false => exfalso; simp [hne] at h3
+
+theorem normModeStr_key (k : String × String) (hk : k ∈ Gen.zonModeMap) :
+    normModeStr Gen.zonModeMap Gen.zonModeSlugs Gen.zonModeNames k.1.toList = .ok k.1.toList := by
+  simp only [Gen.zonModeMap, List.mem_cons, List.not_mem_nil, or_false] at hk
+  rcases hk with h | h | h | h | h <;> subst h <;> decide
+
+/-- a mode given by its key is the mode that is encoded -/
+theorem normaliseMode_str_key (k : String × String) (hk : k ∈ Gen.zonModeMap) (hasT : Bool) (untl : Option DateTime)
+    (du : Option Int) (m : List Char) (h : normaliseMode (.str k.1.toList) hasT untl du = .ok m) : m = k.1.toList := by
+  unfold normaliseMode at h
+  split at h
+  · cases h
+  split at h
+  · cases h
+  simp only [normMode, normModeStr_key k hk] at h
+  split at h
+  · cases h
+  · injection h with h; exact h.symm
+
+/-- **W|1F41 round trip**: for every mode of the table but countdown (whose frames the decoder refuses: a
+    recorded finding), given by its key, with no duration: `set_dhw_mode` either refuses, or builds a frame that
+    decodes to that mode, to the `active` flag (dropped for follow_schedule) and - for temporary_override - to
+    the `until` given, to the minute -/
+theorem setDhwMode_roundtrip (ctl : List Char) (idx : IdxArg) (k : String × String) (hk : k ∈ Gen.zonModeMap)
+    (act : Option Bool) (untl : Option DateTime) (hv : ∀ d, untl = some d → d.valid = true) (f : Frame)
+    (h : setDhwMode ctl idx (.str k.1.toList) act untl none = .ok f) :
+    f.verb = vW ∧ f.code = "1F41".toList ∧ k.1 ≠ Gen.zonModeCOUNTDOWN ∧
+    p1F41 f = .ok (.dict ([("mode", Json.str k.2.toList)] ++
+      activeJson (if k.1 = Gen.zonModeFOLLOW then none else act) ++
+      untilDict untl)) := by
+  have hk2 : k.1.toList.length = 2 := by
+    simp only [Gen.zonModeMap, List.mem_cons, List.not_mem_nil, or_false] at hk
+    rcases hk with h | h | h | h | h <;> subst h <;> rfl
+  have toL : ∀ (x : String), k.1 ≠ x → x ∈ [Gen.zonModeFOLLOW, Gen.zonModeTEMPORARY, Gen.zonModeCOUNTDOWN] → k.1.toList ≠ x.toList := by
+    intro x hne hx
+    simp only [Gen.zonModeMap, List.mem_cons, List.not_mem_nil, or_false] at hk hx
+    rcases hk with h | h | h | h | h <;> subst h <;> rcases hx with e | e | e <;> subst e <;> first | decide | exact absurd rfl hne
+  unfold setDhwMode at h
+  simp only [bind, Except.bind, pure, Except.pure, throw, throwThe, MonadExceptOf.throw] at h
+  cases hi : checkIdx idx with
+  | error e => simp [hi] at h
+  | ok i =>
+    simp only [hi] at h
+    obtain ⟨n, hn, hr⟩ := C03.checkIdx_sound idx i hi
+    have hil : i.length = 2 := by rw [hn]; exact fmtHex_length 2 n (by decide) (by rcases hr with h|h|h|h <;> omega)
+    cases hm : normaliseMode (.str k.1.toList) act.isSome untl none with
+    | error e => simp [hm] at h
+    | ok m =>
+      have hmk := normaliseMode_str_key k hk _ _ _ m hm
+      subst hmk
+      simp only [hm] at h
+      cases hnu : normaliseUntil k.1.toList untl none with
+      | error e => simp [hnu] at h
+      | ok u =>
+        simp only [hnu] at h
+        split at h
+        · cases h
+        rename_i htmp
+        have hdom := normaliseUntil_domain k.1.toList untl none hnu
+        have hnc : k.1 ≠ Gen.zonModeCOUNTDOWN := by
+          intro e
+          have := (hdom.2.1 (by rw [e])).1
+          simp at this
+        have hu : untl.isSome = decide (k.1 = Gen.zonModeTEMPORARY) := by
+          by_cases ht : k.1 = Gen.zonModeTEMPORARY
+          · simp only [ht, decide_true]
+            cases untl with
+            | none => simp [ht] at htmp
+            | some d => rfl
+          · have := (hdom.2.2 (toL _ ht (by simp)) (toL _ hnc (by simp))).1
+            simp [this, ht]
+        have hact' : (if k.1.toList = Gen.zonModeFOLLOW.toList then none else act) = (if k.1 = Gen.zonModeFOLLOW then none else act) := by
+          by_cases hf : k.1 = Gen.zonModeFOLLOW
+          · simp [hf]
+          · simp [toL _ hf (by simp), hf]
+        rw [hact'] at h
+        obtain ⟨act', hdef⟩ : ∃ a, a = (if k.1 = Gen.zonModeFOLLOW then none else act) := ⟨_, rfl⟩
+        rw [← hdef] at h ⊢
+        have hU : (untilHex untl).length = (if untl.isSome then 12 else 0) := by
+          cases untl with
+          | none => rfl
+          | some d => simp only [untilHex, Option.isSome_some, if_true]; exact hexFromDtm_nosecs_length (some d) hv
+        have fin : ∀ (a' : Option Bool), fromAttrsDest vW ctl "1F41".toList (i ++ activeHex a' ++ k.1.toList ++ durHex none ++ untilHex untl) = .ok f →
+            f.verb = vW ∧ f.code = "1F41".toList ∧ k.1 ≠ Gen.zonModeCOUNTDOWN ∧
+            p1F41 f = .ok (.dict ([("mode", Json.str k.2.toList)] ++ activeJson a' ++
+              untilDict untl)) := by
+          intro a' h'
+          have ha2 : (activeHex a').length = 2 := by cases a' with | none => rfl | some b => cases b <;> rfl
+          have hlen : (i ++ activeHex a' ++ k.1.toList ++ durHex none ++ untilHex untl).length / 2 < 1000 := by
+            simp only [List.length_append, hil, ha2, hk2, hU, durHex]
+            split <;> decide
+          have hf := C03.fromAttrsDest_fields vW ctl "1F41".toList _ f rfl rfl hlen h'
+          exact ⟨hf.1, hf.2.1, hnc, p1F41_of_parts f i hil a' k hk untl hv hu (by rw [hf.2.2.1]; rfl)⟩
+        cases act' with
+        | none => exact fin none h
+        | some b =>
+          cases b with
+          | true => exact fin (some true) h
+          | false => exact fin (some false) h
 
 end Ramses.C03Time
